@@ -177,6 +177,63 @@ def ob_point_union(ka, kb, timeout):
     return Ob("punion-%dx%d" % (ka, kb), F(*names), body, pre, fmode="real", timeout=timeout, funcs=[FUNCS[0], FUNCS[5]], bounds="A %d points, B %d points" % (ka, kb))
 
 
+def ob_inter_ieee(timeout):
+    """binary64: intersection/mergeLabels of 1x1 intervals keep an overlap of one ulp and drop
+    mere touching (no tolerance in the overlap test)"""
+    names = ["hi", "as0", "ae0", "bs0", "be0"]
+
+    def pre(hi, a0, a1, b0, b1):
+        return ivs_wf_pre(0.0, hi, a0, a1) & ivs_wf_pre(0.0, hi, b0, b1) & finite(hi)
+
+    def body(hi, a0, a1, b0, b1):
+        ta = IntervalTier("A", [Interval(a0, a1, "x")], 0.0, hi)
+        tb = IntervalTier("B", [Interval(b0, b1, "p")], 0.0, hi)
+        it = tuples(ta.intersection(tb).entries)
+        ml = tuples(ta.mergeLabels(tb).entries)
+        lo = a0 if a0 > b0 else b0
+        up = a1 if a1 < b1 else b1
+        if lo < up:
+            if it != [(lo, up, "x-p")] or ml != [(a0, a1, "x(p)")]:
+                return "overlapping pair"
+        else:
+            if it != [] or ml != []:
+                return "non-overlapping pair produced labelled time"
+        return True
+
+    return Ob("inter-mergelabels-ieee-1x1", F(*names), body, pre, fmode="ieee", timeout=timeout, funcs=FUNCS[2:4], bounds="1x1 intervals, all binary64 timestamps")
+
+
+def ob_point_union_spans(timeout):
+    """point tiers with different (also merely abutting) spans: a shared time point is merged"""
+    names = ["ha", "lb", "hb", "a0", "a1", "b0", "b1"]
+
+    def pre(ha, lb, hb, a0, a1, b0, b1):
+        return pts_wf_pre(0.0, ha, a0, a1) & pts_wf_pre(lb, hb, b0, b1) & (0.0 <= lb) & (hb <= 1024.0) & (ha <= 1024.0) & sep(0.0, ha, lb, hb, a0, a1, b0, b1)
+
+    def body(ha, lb, hb, a0, a1, b0, b1):
+        ea = [(a0, "x"), (a1, "y")]
+        eb = [(b0, "p"), (b1, "q")]
+        ta = PointTier("A", [Point(*e) for e in ea], 0.0, ha)
+        tb = PointTier("B", [Point(*e) for e in eb], lb, hb)
+        u = ta.union(tb)
+        exp = list(ea)
+        for t, l in eb:
+            hit = False
+            for i in range(len(exp)):
+                if exp[i][0] == t:
+                    exp[i] = (t, exp[i][1] + "-" + l)
+                    hit = True
+            if not hit:
+                exp.append((t, l))
+        if tuples(u.entries) != sorted(exp):
+            return "point union"
+        if u.minTimestamp > 0.0 or u.maxTimestamp < (ha if ha > b1 else b1):
+            return "span does not cover the union"
+        return True
+
+    return Ob("punion-spans-2x2", F(*names), body, pre, fmode="real", timeout=timeout, funcs=[FUNCS[0], FUNCS[5]], bounds="A 2 points in [0,ha], B 2 points in [lb,hb]: overlapping, abutting and disjoint spans")
+
+
 def obligations(tier):
     obs = []
     if tier == "quick":
@@ -185,6 +242,8 @@ def obligations(tier):
             obs.append(ob_diff_inter(ka, kb, 300))
             obs.append(ob_merge_labels(ka, kb, 200))
         obs.append(ob_point_union(2, 2, 120))
+        obs.append(ob_point_union_spans(300))
+        obs.append(ob_inter_ieee(300))
         obs.append(ob_union(0, 1, 30))
         obs.append(ob_diff_inter(1, 0, 30))
     else:
@@ -195,4 +254,6 @@ def obligations(tier):
             obs.append(ob_merge_labels(ka, kb, t))
         for ka, kb in ((0, 1), (1, 1), (2, 2), (3, 2), (3, 3)):
             obs.append(ob_point_union(ka, kb, 900))
+        obs.append(ob_point_union_spans(1800))
+        obs.append(ob_inter_ieee(1800))
     return obs
